@@ -55,6 +55,8 @@ fn alphabet(property: &str) -> (Idx, Vec<Op>) {
                 Op::Flush,
                 Op::Update(1, 7),
                 Op::Remove(2),
+                Op::SaveExt(2),
+                Op::RemoveExt,
             ],
         )
     }
